@@ -134,6 +134,27 @@ func TestC13MainWiringMatchers(t *testing.T) {
 		if rec.Code != code || rec.Header().Get("Location") != want {
 			t.Fatalf("proxy.matcher=%s glob.matching.disabled=%v: request %s answered %d Location %q, want %d %q\n%s", matcher, globOff, path, rec.Code, rec.Header().Get("Location"), code, want, text)
 		}
+		// what is configured for tracing (span names from a template over the request) has no say in
+		// the answer: the same request with a query, with and without tracing.SpanName
+		span := rapid.SampledFrom([]string{"{{.Proto}} {{.Method}} {{.Host}} {{.Scheme}} {{.Path}}", "{{.Method}} {{.Path}}", "static-name", "{{.Host}}"}).Draw(t, "tracing.SpanName")
+		cfgT, err := config.Load([]string{"fabio", "-proxy.matcher", matcher, fmt.Sprintf("-glob.matching.disabled=%v", globOff), "-tracing.SpanName", span}, nil)
+		if err != nil {
+			t.Fatal(err)
+		}
+		hT := flexAs[*proxy.HTTPProxy](newHTTPProxy, cfgT, &proxy.HttpStatsHandler{Noroute: metrics.DiscardProvider{}.NewCounter("x")}, firstListen(cfgT))
+		query := rapid.SampledFrom([]string{"q=fabio&page=2", "x=1", "a=%20b"}).Draw(t, "query")
+		var loc [2]string
+		for i, hh := range []*proxy.HTTPProxy{h, hT} {
+			rq := httptest.NewRequest("GET", "http://example.com"+path+"?"+query, nil)
+			rq.RemoteAddr = "192.0.2.1:1234"
+			rc := httptest.NewRecorder()
+			hh.ServeHTTP(rc, rq)
+			loc[i] = fmt.Sprintf("%d %s", rc.Code, rc.Header().Get("Location"))
+		}
+		if loc[0] != loc[1] {
+			t.Fatalf("request %s?%s: answered %q without and %q with tracing.SpanName=%q\n%s", path, query, loc[0], loc[1], span, text)
+		}
+		hx.Class("main-wiring-redirect:with-and-without-a-span-name-template")
 		hx.NonTrivial(fmt.Sprintf("matcher-redirect|%s|%v|%d|%s", matcher, globOff, code, path))
 		hx.Class("main-wiring-redirect:matcher=" + matcher)
 	})
